@@ -162,6 +162,15 @@ func (x *Exec) callFunc(p *Path, callee *ssa.Function, binds []SV, args []SV, re
 		x.errorf("%s: recursive call needs its own contract to be applied", key)
 		return false
 	}
+	for _, fr := range p.frames {
+		if fr.fn == callee {
+			// a recursive helper cannot be inlined: without a contract the caller's proof is undecided; stop exploring
+			// (every branch of the recursion would otherwise be unfolded up to the depth limit)
+			x.errorf("%s: recursive helper %s has no contract (called at %s)", x.cur.ct.Func, key, x.pos(in))
+			x.abort = true
+			return false
+		}
+	}
 	fr := &Frame{fn: callee, env: map[ssa.Value]SV{}, blk: callee.Blocks[0], ret: res}
 	for i, prm := range callee.Params {
 		fr.env[prm] = args[i]
